@@ -9,11 +9,9 @@ Local Open Scope Z_scope.
 
 Lemma expand_tt : forall v f, ktt v (expand f) = tt v f.
 Proof.
-  intros v f; induction f; cbn; rewrite ?IHf, ?IHf1, ?IHf2; try reflexivity.
-  - destruct (tt v f); reflexivity.
-  - destruct (tt v f1), (tt v f2); reflexivity.
-  - destruct (tt v f1), (tt v f2); reflexivity.
-  - destruct (tt v f1), (tt v f2); reflexivity.
+  intros v f; induction f as [|n|f1 IH1 f2 IH2|f1 IH1|f1 IH1 f2 IH2|f1 IH1 f2 IH2|f1 IH1 f2 IH2|];
+    cbn; rewrite ?IH1, ?IH2; try reflexivity;
+    destruct (tt v f1); try destruct (tt v f2); reflexivity.
 Qed.
 
 (* ------------------------------------------------------------------------------------------ *)
